@@ -65,3 +65,5 @@ void h_decode_finish (void) {
   int r = reduce_decode_finish (a, d);
   if (r) REACH ("ok"); else REACH ("failed");
 }
+void h_output_byte (void) { GHOST; struct reduce_data *d; uint32_t pos; _reduce_output_byte (d, pos); REACH ("end"); }
+void h_symb_flush (void) { GHOST; struct reduce_data *d; int t; int r = _reduce_symb_flush (d, t); if (r) REACH ("flushed"); else REACH ("nothing"); }
